@@ -726,6 +726,24 @@ class Interp:
             if name == "try_for_each":
                 return ("agg", "std::result::Result", "Ok", (("agg", "tuple", None, ()),))
             return ("agg", "tuple", None, ())
+        if trait == "std::iter::Iterator" and name in ("find_map", "all", "any", "find", "position") and len(args) == 2 \
+                and isinstance(strip_casts(args[1]), tuple) and strip_casts(args[1])[0] == "closure" \
+                and not self.ctx.reader and not self.ctx.track_fields:
+            # short-circuiting internal iteration: the closure runs on a prefix of the elements; what it checks / writes per
+            # element is recorded once (as for a `for` loop), the result of the search itself stays opaque
+            lid = self.ctx.loop_id()
+            try:
+                desc = self.iter_desc(args[0], lid)
+                pev = []
+                na = len(self.assume)
+                self.assume.append(("range", ("idx", lid), desc[2], desc[3]) if desc[0] == "range"
+                                   else ("elemof", ("elem", lid), desc[2]))
+                self.inline_closure(args[1], [desc_var(desc)], pev, site)
+                del self.assume[na:]
+                ev.append(("loop", desc, pev))
+            except Undecided:
+                pass
+            return ("call", full, tuple(args), ())
         if trait == "std::iter::Iterator" and name == "fold" and len(args) == 3 \
                 and isinstance(strip_casts(args[2]), tuple) and strip_casts(args[2])[0] == "closure" and not self.ctx.reader:
             lid = self.ctx.loop_id()
